@@ -731,3 +731,57 @@ func lockKey(p *PtrVal) int {
 	}
 	return k
 }
+
+// ---- math/big (int mode only): *big.Int objects hold a mathematical integer ----
+
+type BigVal struct{ T *Term }
+
+func (e *Exec) bigOf(st *State, v Val) *Term {
+	p, ok := v.(*PtrVal)
+	if !ok || p.Obj == 0 {
+		e.bail("big.Int: nil or unknown receiver")
+	}
+	r := e.load(st, p)
+	switch x := r.(type) {
+	case *BigVal:
+		return x.T
+	case *StructVal:
+		return e.C.Inti(0) // zero value of big.Int
+	}
+	e.bail("big.Int: unexpected representation %T", r)
+	return nil
+}
+
+func intrBigNewInt(e *Exec, st *State, fr *Frame, args []Val, in ssa.Instruction, rt types.Type) []callRes {
+	e.needInt("math/big")
+	pt := rt.(*types.Pointer)
+	id := e.newObj(st, &BigVal{T: args[0].(*Term)}, &ObjMeta{T: pt.Elem(), Fresh: true})
+	return []callRes{{st, &PtrVal{Obj: id, T: pt.Elem()}}}
+}
+
+func bigBin(op func(c *Ctx, a, b *Term) *Term) intrinsic {
+	return func(e *Exec, st *State, fr *Frame, args []Val, in ssa.Instruction, rt types.Type) []callRes {
+		e.needInt("math/big")
+		z := args[0].(*PtrVal)
+		if z.Obj == 0 {
+			e.oblige(st, fr, in, "nil", e.C.False())
+			return nil
+		}
+		v := op(e.C, e.bigOf(st, args[1]), e.bigOf(st, args[2]))
+		e.store(st, z, &BigVal{T: v})
+		return []callRes{{st, z}}
+	}
+}
+
+func intrBigString(e *Exec, st *State, fr *Frame, args []Val, in ssa.Instruction, rt types.Type) []callRes {
+	e.needInt("math/big")
+	return []callRes{{st, e.stringFromSegs(st, []StrSeg{{Kind: "dec", T: e.bigOf(st, args[0]), Signed: true}})}}
+}
+
+func init() {
+	intrinsics["math/big.NewInt"] = intrBigNewInt
+	intrinsics["(*math/big.Int).Mul"] = bigBin(func(c *Ctx, a, b *Term) *Term { return c.Mul(a, b) })
+	intrinsics["(*math/big.Int).Add"] = bigBin(func(c *Ctx, a, b *Term) *Term { return c.Add(a, b) })
+	intrinsics["(*math/big.Int).Sub"] = bigBin(func(c *Ctx, a, b *Term) *Term { return c.Sub(a, b) })
+	intrinsics["(*math/big.Int).String"] = intrBigString
+}
